@@ -7,9 +7,10 @@ Hypotheses that appear below, all explicit:
                   accounts (module accounts hold no keys);
   `CleanRun`    — additionally: no pricing document carries a promotion (F-svc-1 otherwise), context ids
                   are fresh (`tmhash(tx) ‖ index`, modulo collisions), and the keeper-only entry point
-                  `WithdrawEarnedFees(owner, nil)` is not used (no message reaches it; F-svc-2 otherwise).
-The full statements that the code does *not* satisfy are kept as `def`s with their negation proved from
-a witness (`*_fails`).
+                  `WithdrawEarnedFees(owner, nil)` is not used (no message reaches it).
+The one full statement that the code does *not* satisfy (F-svc-1, pinned by the repository's own tests) is
+kept as a `def` with its negation proved from a witness (`escrow_kept_by_new_batch_fails`); the statements
+that F-svc-2 and F-svc-4 used to exclude are proved in full since /repo 5529ca8 and 3670fd1.
 -/
 import Irismod.Proofs.ServiceTally
 
@@ -226,21 +227,14 @@ theorem escrow_kept_by_new_batch_fails : ¬ EscrowKeptByNewBatch := by
 
 /-! ### (c) the consumer is charged exactly the fees of the requests issued for them -/
 
-/-- without promotions and when the consumer can pay the whole batch, the end block debits the consumer by
-exactly the fees recorded on the requests it creates for them -/
+/-- without promotions the end block debits the consumer by exactly the fees recorded on the requests it
+creates for them — also when the consumer cannot pay the whole batch: the deduction is atomic, nothing is
+debited and nothing is created (the promotion side condition is F-svc-1) -/
 theorem charge_eq_fees_partial (s : State) (hs : Full s) (id : CtxId) (hm : AMap.get? s.newH id = some s.height)
-    (c : Ctx) (hg : AMap.get? s.ctxs id = some c)
-    (hpay : ∀ provs total, filterProviders s c c.providers [] [] = some (provs, total) →
-      (debitCoins s.bank c.consumer (sortCoins total)).2 = true) (d : Denom) :
+    (c : Ctx) (hg : AMap.get? s.ctxs id = some c) (d : Denom) :
     Bank.balOf (newBatch s id).bank c.consumer d + activeFee (newBatch s id) d =
       Bank.balOf s.bank c.consumer d + activeFee s d :=
-  charge_eq_fees hs.1 hs.2.1 hs.2.2.1 id hm hg hpay d
-
-/-- the full statement without the "can pay" side condition -/
-def ChargeEqFees : Prop :=
-  ∀ (s : State) (id : CtxId) (c : Ctx) (d : Denom), Full s → AMap.get? s.newH id = some s.height →
-    AMap.get? s.ctxs id = some c →
-    Bank.balOf (newBatch s id).bank c.consumer d + activeFee (newBatch s id) d = Bank.balOf s.bank c.consumer d + activeFee s d
+  charge_eq_fees hs.1 hs.2.1 hs.2.2.1 id hm hg d
 
 def w4bindA : Binding :=
   { owner := "A3", deposit := 100, pricing := { denom := "stake", amount := 10 }, qos := 2, available := true, disabledTime := 0 }
@@ -249,17 +243,17 @@ def w4bindB : Binding :=
 def w4ctx : Ctx :=
   { svc := "s1", providers := ["A0", "A1"], consumer := "A5", cap := 100, timeout := 2, repeated := false,
     batchState := .completed, state := .running }
-/-- providers priced 10stake and 20dbb, the consumer holds 1000dbb but only 5stake -/
+/-- providers priced 10stake and 20dbb, the consumer holds 1000dbb but only 5stake (the former F-svc-4 witness) -/
 def w4 : State :=
   { height := 20, time := 50, ctxs := [("c", w4ctx)], binds := [(("s1", "A0"), w4bindA), (("s1", "A1"), w4bindB)],
     rates := [("dbb", ("2.0", ⟨2000000000000000000⟩))],
     bank := { bal := [(("A5", "stake"), 5), (("A5", "dbb"), 1000), (("Mdep", "stake"), 200)] },
     newQ := [(20, "c")], newH := [("c", 20)] }
 
-/-- the witness state's behaviour: 20dbb leave the consumer, no request is created, nothing reaches the escrow -/
-theorem w4_partial_debit :
-    Bank.balOf (newBatch w4 "c").bank "A5" "dbb" = 980 ∧ (newBatch w4 "c").active = [] ∧
-    Bank.balOf (newBatch w4 "c").bank reqAcc "dbb" = 0 := by decide
+/-- the failed deduction is atomic: the consumer keeps the 1000dbb, no request is created, the context is paused -/
+theorem w4_atomic_deduction :
+    Bank.balOf (newBatch w4 "c").bank "A5" "dbb" = 1000 ∧ (newBatch w4 "c").active = [] ∧
+    (getCtx (newBatch w4 "c") "c").state = .paused := by decide
 
 /-! ### (d) exact movements -/
 
@@ -298,52 +292,31 @@ theorem slash_moves_exact_fraction (s : State) (hd : DepositInv s) (svc : String
 
 /-! ### (e) owner-side and provider-side tallies -/
 
-/-- the full statement: a per-provider withdrawal keeps the two tallies in agreement -/
-def TallyKeptByWithdrawal : Prop :=
-  ∀ (s s' : State) (owner p : Addr), TallyInv s → withdrawProvider s owner p = .ok s' → TallyInv s'
+/-- a per-provider withdrawal keeps provider-side and owner-side tallies in agreement, with any number of fee
+denoms (the stored tables have unique keys, which every operation maintains: they are only written through
+`set` / filtered) -/
+theorem tally_kept_by_withdrawal (s s' : State) (owner p : Addr) (ht : TallyInv s) (hn1 : KeysNodup s.earned)
+    (hn2 : KeysNodup s.oearned) (h : withdrawProvider s owner p = .ok s') :
+    TallyInv s' ∧ KeysNodup s'.earned ∧ KeysNodup s'.oearned :=
+  tally_withdrawProvider ht hn1 hn2 h
 
-/-- owner A3 with providers A0 (9stake earned) and A1 (18dbb earned) -/
+/-- an answer credits the provider's entry and its owner's entry with the same amount, so the tallies stay in
+agreement -/
+theorem tally_kept_by_answer (s : State) (ht : TallyInv s) (p o : Addr) (ho : AMap.get? s.owners p = some o) (d0 : Denom)
+    (n : Nat) (s' : State) (e1 : s'.earned = bump s.earned p d0 n) (e2 : s'.oearned = bump s.oearned o d0 n)
+    (e3 : s'.owners = s.owners) : TallyInv s' :=
+  tally_bump ht ho d0 n s' e1 e2 e3
+
+/-- owner A3 with providers A0 (9stake earned) and A1 (18dbb earned): the former F-svc-2 witness -/
 def w2 : State :=
   { owners := [("A0", "A3"), ("A1", "A3")], ownerProv := [("A3", "A0"), ("A3", "A1")],
     earned := [(("A0", "stake"), 9), (("A1", "dbb"), 18)], oearned := [(("A3", "stake"), 9), (("A3", "dbb"), 18)],
     bank := { bal := [(("Mreq", "stake"), 9), (("Mreq", "dbb"), 18)] } }
 
-theorem w2_tally : TallyInv w2 := by
-  intro o d
-  by_cases ho : o = "A3"
-  · subst ho
-    by_cases h1 : d = "stake"
-    · subst h1; decide
-    · by_cases h2 : d = "dbb"
-      · subst h2; decide
-      · have a1 : ¬ ("stake" = d) := fun e => h1 e.symm
-        have a2 : ¬ ("dbb" = d) := fun e => h2 e.symm
-        simp [providersEarned, ownerEarned, w2, AMap.sumIf, a1, a2]
-  · have a0 : ¬ ("A3" = o) := fun e => ho e.symm
-    simp [providersEarned, ownerEarned, ownedBy, w2, AMap.sumIf, AMap.get?, a0]
-
-/-- F-svc-2: it fails — after withdrawing for A0 the owner-side tally still says 9stake although no provider
-of A3 has stake fees left -/
-theorem tally_kept_by_withdrawal_fails : ¬ TallyKeptByWithdrawal := by
-  intro h
-  have hw : ∃ s', withdrawProvider w2 "A3" "A0" = .ok s' ∧ ownerEarned s' "A3" "stake" = 9 ∧ providersEarned s' "A3" "stake" = 0 := by
-    refine ⟨_, rfl, ?_, ?_⟩ <;> decide
-  obtain ⟨s', h1, h2, h3⟩ := hw
-  have := h w2 s' "A3" "A0" w2_tally h1 "A3" "stake"
-  rw [h2, h3] at this
-  cases this
-
-/-- … and holds with a single fee denom: if all provider-side and owner-side entries are in one denom (unique
-keys, positive amounts — what `SetEarnedFees` / `SetOwnerEarnedFees` write), an accepted per-provider
-withdrawal lowers the owner-side tally by exactly the provider's earned fees (an answer raises both by the
-same amount, see `respond_fee_split`) -/
-theorem tally_withdrawal_single_denom_partial (s s' : State) (owner p : Addr) (d0 : Denom)
-    (h : withdrawProvider s owner p = .ok s')
-    (hn1 : KeysNodup s.earned) (hn2 : KeysNodup s.oearned)
-    (hd1 : ∀ e, e ∈ s.earned → e.1.2 = d0) (hd2 : ∀ e, e ∈ s.oearned → e.1.2 = d0)
-    (hpos : ∀ e, e ∈ s.earned → 0 < e.2) (hpos2 : ∀ e, e ∈ s.oearned → 0 < e.2) :
-    (AMap.get? s'.oearned (owner, d0)).getD 0 + (AMap.get? s.earned (p, d0)).getD 0 =
-      (AMap.get? s.oearned (owner, d0)).getD 0 :=
-  withdraw_owner_tally_single_denom d0 h hn1 hn2 hd1 hd2 hpos hpos2
+/-- after withdrawing for A0 the owner-side tally no longer mentions stake -/
+theorem w2_withdrawal :
+    ∃ s', withdrawProvider w2 "A3" "A0" = .ok s' ∧ ownerEarned s' "A3" "stake" = 0 ∧ providersEarned s' "A3" "stake" = 0 ∧
+      ownerEarned s' "A3" "dbb" = 18 ∧ providersEarned s' "A3" "dbb" = 18 := by
+  refine ⟨_, rfl, ?_, ?_, ?_, ?_⟩ <;> decide
 
 end Irismod.Props.C07
